@@ -122,7 +122,7 @@ func TestVerif_C12_wrap(t *testing.T) {
 		wrapped bool // middleware (either layer) present when the member was cloned / on the member now
 		preWrap bool // the member is a clone taken from a member that carried middleware
 	}
-	n := verifh.N(70, 1500)
+	n := verifh.N(100, 2000)
 	id := 0
 	for i := 0; i < n; i++ {
 		o := origins[offers[r.Intn(len(offers))]]
